@@ -345,9 +345,110 @@ package cputensor
 //@   ensures[C03,C07] iff(err == nil, bcompat(ct1, ct2))
 //@   ensures[C03,C07] imp(err == nil, bct1 != nil && bct2 != nil && bshape(bct1, ct1, ct2) && sameShape(bct1, bct2))
 //@   ensures[C03,C07] imp(err == nil, forallJ(J, imp(inb(bct1, J), el(bct1, J) == el(ct1, proj(ct1, bct1, J)) && el(bct2, J) == el(ct2, proj(ct2, bct2, J)))))
+//@   ensures[C03,C07] imp(err == nil, isBcastImage(bct1, ct1) && isBcastImage(bct2, ct2))
 //@   ensures[C08] imp(err == nil, ctx1(bct1, ct1) && ctx1(bct2, ct2) && edgeInv(bct1) && edgeInv(bct2) && tinv(bct1) && tinv(bct2))
 
 //@ lemma btargetCompat1: forallT(a, forallT(b, forallJ(S, forallI(n, imp(isBTarget(a, b, S, n) && bcastOKA(a, S, n) && bcastOKA(b, S, n), bcompat(a, b))))))
 //@ lemma btargetCompat2: forallT(a, forallT(b, forallJ(S, forallI(n, imp(isBTarget(a, b, S, n) && bcompat(a, b), bcastOKA(a, S, n))))))
 //@ lemma btargetCompat3: forallT(a, forallT(b, forallJ(S, forallI(n, imp(isBTarget(a, b, S, n) && bcompat(a, b), bcastOKA(b, S, n))))))
 //@ lemma btargetShape: forallT(a, forallT(b, forallT(o, forallJ(S, forallI(n, imp(isBTarget(a, b, S, n) && hasShapeA(o, S, n), bshape(o, a, b)))))))
+
+/* ---------------- MatMul broadcasting ---------------- */
+
+//@ predicate isBatchTarget(a T, b T, S Idx, n Int) := n == imax(rank(a), rank(b)) && forall(k, 0, n-2, S[k] == bdimT(a, b, k, n))
+//@ predicate lastTwo(a T, S Idx, n Int) := S[n-2] == dim(a, rank(a)-2) && S[n-1] == dim(a, rank(a)-1)
+//@ lemma mmtargetOK: forallT(a, forallT(b, forallJ(S, forallI(n, imp(isBatchTarget(a, b, S, n) && rank(a) >= 2 && rank(b) >= 2 && lastTwo(a, S, n) && mmcompat(a, b), bcastOKA(a, S, n))))))
+//@ lemma mmtargetOK2: forallT(a, forallT(b, forallJ(S, forallI(n, imp(isBatchTarget(a, b, S, n) && rank(a) >= 2 && rank(b) >= 2 && lastTwo(b, S, n) && mmcompat(a, b), bcastOKA(b, S, n))))))
+//@ lemma mmtargetCompat: forallT(a, forallT(b, forallJ(S, forallJ(S2, forallI(n, imp(isBatchTarget(a, b, S, n) && isBatchTarget(a, b, S2, n) && rank(a) >= 2 && rank(b) >= 2
+//@                       && bcastOKA(a, S, n) && bcastOKA(b, S2, n), mmcompat(a, b)))))))
+//@ lemma mmtargetShape: forallT(a, forallT(b, forallT(o, forallT(p, forallT(q, forallJ(S, forallJ(S2, forallI(n, imp(isBatchTarget(a, b, S, n) && isBatchTarget(a, b, S2, n)
+//@                       && rank(a) >= 2 && rank(b) >= 2 && lastTwo(a, S, n) && lastTwo(b, S2, n) && hasShapeA(p, S, n) && hasShapeA(q, S2, n)
+//@                       && rank(o) == n && forall(k, 0, n-2, dim(o, k) == dim(p, k)) && dim(o, n-2) == dim(p, n-2) && dim(o, n-1) == dim(q, n-1), mmshape(o, a, b))))))))))
+
+//@ func broadcastForMatMul
+//@   requires tinv(ct1) && tinv(ct2) && preexisting(ct1) && preexisting(ct2) && rank(ct1) >= 2 && rank(ct2) >= 2
+//@   returns fresh
+//@   uses dimsLink, mmtargetOK, mmtargetOK2, mmtargetCompat
+//@   ensures[C04,C07] iff(err == nil, mmcompat(ct1, ct2))
+//@   ensures[C04,C07] imp(err == nil, bct1 != nil && bct2 != nil && rank(bct1) == imax(rank(ct1), rank(ct2)) && rank(bct2) == rank(bct1))
+//@   ensures[C04,C07] imp(err == nil, forall(k, 0, rank(bct1)-2, dim(bct1, k) == bdimT(ct1, ct2, k, rank(bct1)) && dim(bct2, k) == dim(bct1, k)))
+//@   ensures[C04,C07] imp(err == nil, dim(bct1, rank(bct1)-2) == dim(ct1, rank(ct1)-2) && dim(bct1, rank(bct1)-1) == dim(ct1, rank(ct1)-1)
+//@                    && dim(bct2, rank(bct1)-2) == dim(ct2, rank(ct2)-2) && dim(bct2, rank(bct1)-1) == dim(ct2, rank(ct2)-1))
+//@   ensures[C04,C07] imp(err == nil, forallJ(J, imp(inb(bct1, J), el(bct1, J) == el(ct1, proj(ct1, bct1, J)))) && forallJ(J, imp(inb(bct2, J), el(bct2, J) == el(ct2, proj(ct2, bct2, J)))))
+//@   ensures[C04,C07] imp(err == nil, isBcastImage(bct1, ct1) && isBcastImage(bct2, ct2))
+//@   ensures[C08] imp(err == nil, ctx1(bct1, ct1) && ctx1(bct2, ct2) && edgeInv(bct1) && edgeInv(bct2) && tinv(bct1) && tinv(bct2))
+
+/* ---------------- sums of products through broadcasting ---------------- */
+
+//@ predicate isBcastImage(p T, t T) := forallJ(K, imp(inb(p, K), el(p, K) == el(t, proj(t, p, K))))
+// SUM-EXT (paper lemma): the sum of products along the contracted dimension depends only on the elements of its two
+// operands; dotsum / mmsum of the original operands are by definition the sums over their broadcast images.
+//@ axiom dotsumDef: forallT(t, forallT(u, forallT(p, forallT(q, imp(isBcastImage(p, t) && isBcastImage(q, u) && sameShape(p, q), forallJ(J, dsum(p, q, J) == dotsum(t, u, J)))))))
+//@ axiom mmsumDef: forallT(t, forallT(u, forallT(p, forallT(q, imp(isBcastImage(p, t) && isBcastImage(q, u) && rank(p) == rank(q), forallJ(J, msum(p, q, J) == mmsum(t, u, J)))))))
+
+/* ---------------- cputensor.go: constructors and Concat ---------------- */
+
+//@ define leafCtx(o, b) := o.gctx != nil && o.gctx.tracked == b && !o.gctx.bpdirty && o.gctx.gradient == nil && len(o.gctx.backEdges) == 0
+//@ define dimsOK(dims) := forall(k, 0, len(dims), dims[k] > 0)
+
+//@ func Full
+//@   public
+//@   returns fresh
+//@   ensures[C09] iff(err == nil, dimsOK(dims)) && imp(err != nil, o == nil)
+//@   ensures[C06,C18] imp(err == nil, o != nil && hasShape(o, dims) && forallJ(J, imp(inb(o, J), el(o, J) == value)))
+//@   ensures[C08,C18] imp(err == nil, leafCtx(o, withGrad))
+
+//@ func Zeros
+//@   public
+//@   returns fresh
+//@   ensures[C09] iff(err == nil, dimsOK(dims)) && imp(err != nil, o == nil)
+//@   ensures[C06] imp(err == nil, o != nil && hasShape(o, dims) && forallJ(J, imp(inb(o, J), el(o, J) == 0)))
+//@   ensures[C08] imp(err == nil, leafCtx(o, withGrad))
+
+//@ func Ones
+//@   public
+//@   returns fresh
+//@   ensures[C09] iff(err == nil, dimsOK(dims)) && imp(err != nil, o == nil)
+//@   ensures[C06] imp(err == nil, o != nil && hasShape(o, dims) && forallJ(J, imp(inb(o, J), el(o, J) == 1)))
+//@   ensures[C08] imp(err == nil, leafCtx(o, withGrad))
+
+//@ func Eye
+//@   public
+//@   returns fresh
+//@   ensures[C09] iff(err == nil, n > 0) && imp(err != nil, o == nil)
+//@   ensures[C06] imp(err == nil, o != nil && rank(o) == 2 && dim(o, 0) == n && dim(o, 1) == n && forallJ(J, imp(inb(o, J), el(o, J) == ite(J[0] == J[1], 1.0, 0.0))))
+//@   ensures[C08] imp(err == nil, leafCtx(o, withGrad))
+
+//@ func RandU
+//@   public
+//@   returns fresh
+//@   ensures[C09,C18] iff(err == nil, l < u && dimsOK(dims)) && imp(err != nil, o == nil)
+//@   ensures[C18] imp(err == nil, o != nil && hasShape(o, dims) && forallJ(J, imp(inb(o, J), l <= el(o, J) && el(o, J) < u)))
+//@   ensures[C08,C18] imp(err == nil, leafCtx(o, withGrad))
+
+//@ func RandN
+//@   public
+//@   returns fresh
+//@   ensures[C09,C18] iff(err == nil, s > 0 && dimsOK(dims)) && imp(err != nil, o == nil)
+//@   ensures[C18] imp(err == nil, o != nil && hasShape(o, dims))
+//@   ensures[C08,C18] imp(err == nil, leafCtx(o, withGrad))
+
+//@ define catDimsOK(ts, dim) := forall(a, 0, len(ts), ts[a] != nil && rank(ts[a]) > 0 && rank(ts[a]) == rank(ts[0]) && 0 <= dim && dim < rank(ts[0])
+//@                              && forall(b, 0, rank(ts[a]), b == dim || dim(ts[a], b) == dim(ts[0], b)))
+
+//@ func initConcatResultTensor
+//@   requires len(ts) >= 1 && catDimsOK(ts, dim)
+//@   assumed L2 recursion fillCat over nested []any with append of sub-slices; bounded stand-in: rac TestConcat
+//@   returns fresh
+//@   ensures o != nil && rank(o) == rank(ts[0]) && dim(o, dim) == catoff(ts, dim, len(ts)) && forall(b, 0, rank(o), b == dim || dim(o, b) == dim(ts[0], b))
+//@   ensures forall(a, 0, len(ts), forallJ(J, imp(inb(o, J) && catoff(ts, dim, a) <= J[dim] && J[dim] < catoff(ts, dim, a+1), el(o, J) == el(ts[a], upd(J, dim, J[dim] - catoff(ts, dim, a))))))
+
+//@ func Concat
+//@   requires len(ts) >= 2 && forall(k, 0, len(ts), imp(ts[k] != nil, tinv(ts[k]) && preexisting(ts[k])))
+//@   uses dimsLink
+//@   returns fresh
+//@   ensures[C09,C06] iff(err == nil, catDimsOK(ts, dim)) && imp(err != nil, o == nil)
+//@   ensures[C06] imp(err == nil, o != nil && rank(o) == rank(ts[0]) && dim(o, dim) == catoff(ts, dim, len(ts)) && forall(b, 0, rank(o), b == dim || dim(o, b) == dim(ts[0], b)))
+//@   ensures[C06] imp(err == nil, forall(a, 0, len(ts), forallJ(J, imp(inb(o, J) && catoff(ts, dim, a) <= J[dim] && J[dim] < catoff(ts, dim, a+1), el(o, J) == el(ts[a], upd(J, dim, J[dim] - catoff(ts, dim, a)))))))
+//@   ensures[C08] imp(err == nil, o.gctx != nil && o.gctx.gradient == nil && dirtyT(o) == exists(k, 0, len(ts), dirtyT(ts[k])) && trkT(o) == (!dirtyT(o) && exists(k, 0, len(ts), trkT(ts[k]))) && edgeInv(o))
+//@   loop 0 invariant len(cusDims) == len(ts) && len(cus) == len(ts) && forall(k, 0, i, len(cusDims[k]) == rank(ts[k]) && forall(m, 0, rank(ts[k]), cusDims[k][m] == dim(ts[k], m)))
